@@ -291,7 +291,7 @@ def run(tier, seed, replay=None):
                  "references) x every candidate document generated from the schemars schema (second TLC run, Instances!Candidates) that "
                  "the origin type itself reads and round-trips; both ingestion routes; non-trivial = (type, route, sample) exchanges",
          "distinct_nontrivial": sum(1 for e in trace if e["ev"] == "exchange"),
-         "types": len(cases), "samples": nsam, "origin_build_s": round(build_s, 1), "generated_crates": gst,
+         "types": len(cases), "sample_values": nsam, "origin_build_s": round(build_s, 1), "generated_crates": gst,
          "oracle_selfcheck": {"checked": oc["checked"], "disagreements": oc["n_disagree"]}},
         ["sample values of an origin type are the candidate documents (generated from its schemars schema) that the origin type accepts "
          "and round-trips; equality of values is the origin type's derived PartialEq",
